@@ -10,13 +10,13 @@ namespace SparseV
 
 /-! ### component-wise view of `InB` -/
 
-theorem InB_iff_getD : ∀ {i : Idx} {s : List Nat},
+theorem InB_iff_getD_j : ∀ {i : Idx} {s : List Nat},
     InB i s ↔ i.length = s.length ∧ ∀ a, a < s.length → i.getD a 0 < s.getD a 0
   | [], [] => by simp
   | [], _ :: _ => by simp
   | _ :: _, [] => by simp
   | x :: is, d :: ds => by
-    rw [InB_cons, InB_iff_getD (i := is) (s := ds)]
+    rw [InB_cons, InB_iff_getD_j (i := is) (s := ds)]
     constructor
     · rintro ⟨h0, hl, h⟩
       refine ⟨by simp [hl], fun a ha => ?_⟩
@@ -31,7 +31,7 @@ theorem InB_iff_getD : ∀ {i : Idx} {s : List Nat},
       simpa using this
 
 theorem InB_getD_lt {i : Idx} {s : List Nat} (h : InB i s) {a : Nat} (ha : a < s.length) :
-    i.getD a 0 < s.getD a 0 := (InB_iff_getD.mp h).2 a ha
+    i.getD a 0 < s.getD a 0 := (InB_iff_getD_j.mp h).2 a ha
 
 theorem getD_set_eq (l : List Nat) (a v : Nat) (h : a < l.length) : (l.set a v).getD a 0 = v := by
   simp [List.getD_eq_getElem?_getD, h]
@@ -380,7 +380,7 @@ theorem getD_insertAt_self (i : Idx) (axis k : Nat) (h : axis ≤ i.length) : (i
   rw [List.getD_eq_getElem?_getD, List.getElem?_append_right (by simp; omega)]
   simp [Nat.min_eq_left h]
 
-theorem eraseIdx_insertAt (i : Idx) (axis k : Nat) (h : axis ≤ i.length) : (insertAt i axis k).eraseIdx axis = i := by
+theorem eraseIdx_insertAt_j (i : Idx) (axis k : Nat) (h : axis ≤ i.length) : (insertAt i axis k).eraseIdx axis = i := by
   unfold insertAt
   rw [List.eraseIdx_append_of_length_le (by simp; omega)]
   simp [Nat.min_eq_left h]
@@ -400,7 +400,7 @@ theorem InB_append : ∀ (a c b d : List Nat), a.length = c.length → (InB (a +
   | [], _ :: _, _, _, h => by simp at h
   | _ :: _, [], _, _, h => by simp at h
 
-theorem InB_insertAt (i s : List Nat) (axis k m : Nat) (h : axis ≤ s.length) :
+theorem InB_insertAt_j (i s : List Nat) (axis k m : Nat) (h : axis ≤ s.length) :
     InB (insertAt i axis k) (insertAt s axis m) ↔ k < m ∧ InB i s := by
   constructor
   · intro hin
@@ -448,12 +448,12 @@ theorem lookup_stack_part (axis s : Nat) (y : COO α) (hlen : ∀ e ∈ y.entrie
   rw [mapIdx_eq_rewrite]
   have := rewrite_lookup y.entries d (fun i => some (insertAt i axis s)) (fun j => j.eraseIdx axis)
     (insertAt i axis s) ?_ ?_
-  · rw [this, eraseIdx_insertAt i axis s hi]
+  · rw [this, eraseIdx_insertAt_j i axis s hi]
   · intro e he j' hg
     simp only [Option.some.injEq] at hg
     subst hg
-    exact eraseIdx_insertAt _ _ _ (hlen e he)
-  · simp only [eraseIdx_insertAt i axis s hi]
+    exact eraseIdx_insertAt_j _ _ _ (hlen e he)
+  · simp only [eraseIdx_insertAt_j i axis s hi]
 
 theorem stackGo_lookup (axis : Nat) (z : COO α) (ys : List (COO α)) (s : Nat) (d : α) (i : Idx) (k : Nat)
     (hlen : ∀ y ∈ ys, ∀ e ∈ y.entries, axis ≤ e.1.length) (hi : axis ≤ i.length)
@@ -498,8 +498,8 @@ theorem stackGo_nodup (axis : Nat) (ys : List (COO α)) (s : Nat)
       intro a ha b hb hab
       obtain ⟨ea, hea, rfl⟩ := mem_keysOf.mp ha
       obtain ⟨eb, heb, rfl⟩ := mem_keysOf.mp hb
-      rw [← eraseIdx_insertAt ea.1 axis s (hlen y List.mem_cons_self ea hea),
-        ← eraseIdx_insertAt eb.1 axis s (hlen y List.mem_cons_self eb heb)]
+      rw [← eraseIdx_insertAt_j ea.1 axis s (hlen y List.mem_cons_self ea hea),
+        ← eraseIdx_insertAt_j eb.1 axis s (hlen y List.mem_cons_self eb heb)]
       exact congrArg (fun l => List.eraseIdx l axis) hab
     · intro a ha b hb hab
       obtain ⟨ea, hea, rfl⟩ := mem_keysOf.mp ha
@@ -651,13 +651,13 @@ theorem diagSrc_sel (n a1 a2 : Nat) (offset : Int) (j : Idx) (h1 : a1 < n) (h2 :
 end COO
 
 namespace COO
-theorem InB_gather (i s : List Nat) (h : InB i s) : ∀ (axes : List Nat), (∀ a ∈ axes, a < s.length) →
+theorem InB_gather_j (i s : List Nat) (h : InB i s) : ∀ (axes : List Nat), (∀ a ∈ axes, a < s.length) →
     InB (gather i axes) (gather s axes)
   | [], _ => by simp [gather]
   | a :: axes, ha => by
     simp only [gather, List.map_cons, InB_cons]
-    exact ⟨InB_getD_lt h (ha a List.mem_cons_self), InB_gather i s h axes (fun b hb => ha b (List.mem_cons_of_mem _ hb))⟩
-theorem gather_length (i axes : List Nat) : (gather i axes).length = axes.length := by simp [gather]
+    exact ⟨InB_getD_lt h (ha a List.mem_cons_self), InB_gather_j i s h axes (fun b hb => ha b (List.mem_cons_of_mem _ hb))⟩
+theorem gather_length_j (i axes : List Nat) : (gather i axes).length = axes.length := by simp [gather]
 end COO
 theorem getD_append_last (A : List Nat) (v : Nat) : (A ++ [v]).getD A.length 0 = v := by
   simp [List.getD_eq_getElem?_getD]
